@@ -88,15 +88,21 @@ func runC17(c *ev.Ctx) {
 		maxSort, maxRev, maxPanic = 6, 5, 4
 	}
 	ints := []interface{}{math.MinInt, -1, 0, 1, 2, math.MaxInt}
+	// neighbours that are distinct as int but equal after conversion to float64 (|x| > 2^53)
+	bigInts := []interface{}{math.MinInt, math.MinInt + 1, -(1 << 53) - 1, -(1 << 53), 0, 1 << 53, 1<<53 + 1, math.MaxInt - 1, math.MaxInt}
 	floats := []interface{}{math.Inf(-1), -math.MaxFloat64, -1.5, math.Copysign(0, -1), 0.0, 5e-324, 1.0, 1.5, math.Inf(1)}
 	strs := []interface{}{"", "a", "b", "ab", "B", "é", "a\x00", "\U0010FFFF"}
-	c.Rule("Sort: every list of length 1.." + fmt.Sprint(maxSort) + " over 6 ints / 9 non-NaN floats / 8 strings x 6 construction histories (different private len/cap) x 3 alias routes; Reverse: every list of length 0.." + fmt.Sprint(maxRev) + " over the 13-value kinds alphabet x histories; Sort-panic: every list of length 1.." + fmt.Sprint(maxPanic) + " whose first element is nil/bool/list/object. A case is non-trivial (and counted once per distinct input sequence+operation) when the operation has to move at least one element (input not already in the target order) or must panic.")
+	c.Rule("Sort: every list of length 1.." + fmt.Sprint(maxSort) + " over 6 ints / 9 non-NaN floats / 8 strings (and length 1..4 over 9 ints that are pairwise neighbours above 2^53 in magnitude) x 6 construction histories (different private len/cap) x 3 alias routes; Reverse: every list of length 0.." + fmt.Sprint(maxRev) + " over the 13-value kinds alphabet x histories; Sort-panic: every list of length 1.." + fmt.Sprint(maxPanic) + " whose first element is nil/bool/list/object. A case is non-trivial (and counted once per distinct input sequence+operation) when the operation has to move at least one element (input not already in the target order) or must panic.")
 	c.Assume("floats compared by bit pattern for the multiset, by == for order", "strings ordered bytewise (Go string comparison)", "NaN, empty lists and mixed-kind lists are outside the property's Sort domain and not generated")
 
 	// ---- Sort ----
-	for ai, alpha := range [][]interface{}{ints, floats, strs} {
+	for ai, alpha := range [][]interface{}{ints, floats, strs, bigInts} {
 		alpha := alpha
-		kind := []string{"int", "float", "string"}[ai]
+		kind := []string{"int", "float", "string", "int"}[ai]
+		maxSort := maxSort
+		if ai == 3 {
+			maxSort = 4
+		}
 		total, offs := powSum(len(alpha), 1, maxSort)
 		total *= c17Histories * c17Aliases
 		done := par.Range(c.Workers, total, 4096, func() bool { return c.Expired() || c.TooMany() }, func(w int, idx int64) {
